@@ -566,17 +566,35 @@ def _message_path(ctx: Ctx, rs: RuleSet):
   mm = None
   ok = False
   path_param = [x for x in cb.params if 'path' in x]
+  env: set = set()   # expressions of `mm` that denote this call's path
+
+  def _bind_to(target, pos, kws):
+    """parameter -> argument for `target(*pos, **kws)` (no call node needed)."""
+    pseudo = ast.Call(func=ast.Name(id='_', ctx=ast.Load()), args=list(pos),
+                      keywords=list(kws))
+    from fdlstatic import inline as _inl
+    return _inl._bind(target, pseudo)  # pylint: disable=protected-access
+
+  def _is(e, names):
+    return isinstance(e, ast.Name) and e.id in names
+
   for la in lazy_args:
+    la_d = roles.deref(cb, la) if isinstance(la, ast.Name) else la
     for e in roles.expand(cb, la, 2):
       if isinstance(e, ast.Call) and unparse(e.func).endswith(
           'partial') and e.args:
         tq = p.resolve(e.args[0], cb)
         if tq in p.funcs:
           mm = p.funcs[tq]
-          names = [a.id if isinstance(a, ast.Name) else None
-                   for a in e.args[1:]]
-          ok = (len(names) >= 2 and names[0] in path_param and
-                names[1] == cb.params[0])
+          b = _bind_to(mm, e.args[1:], e.keywords) or {}
+          # parameters left for the caller of the partial object do not
+          # matter; the path and the buildable must be bound here
+          if not b:
+            prm = [x for x in mm.params]
+            b = dict(zip(prm, e.args[1:]))
+            b.update({k.arg: k.value for k in e.keywords if k.arg})
+          env = {k for k, v in b.items() if _is(v, path_param)}
+          ok = bool(env) and any(_is(v, cb.params[:1]) for v in b.values())
     # ... or a closure / lambda that calls the message function
     closure = None
     if isinstance(la, ast.Name) and la.id in cb.nested:
@@ -589,12 +607,29 @@ def _message_path(ctx: Ctx, rs: RuleSet):
         tq = p.resolve(ret_.func, closure)
         if tq in p.funcs:
           mm = p.funcs[tq]
-          names = [a.id if isinstance(a, ast.Name) else None
-                   for a in ret_.args]
-          ok = (len(names) >= 2 and names[0] in path_param and
-                names[1] == cb.params[0] and not closure.params)
+          b = ctx.bound_args(ret_, closure) or {}
+          env = {k for k, v in b.items() if _is(v, path_param)}
+          ok = bool(env) and any(_is(v, cb.params[:1]) for v in b.values()) and (
+              not closure.params)
+    # ... or a bound method of a record made from this call's values:
+    # `site = _CallSite(current_path=current_path, buildable=buildable, ...)`
+    # and `site.describe` handed on
+    if mm is None and isinstance(la_d, ast.Attribute):
+      inst = roles.deref(cb, la_d.value) if isinstance(
+          la_d.value, ast.Name) else la_d.value
+      if isinstance(inst, ast.Call):
+        cq = p.resolve(inst.func, cb)
+        meth = p.find_method(cq, la_d.attr) if cq in p.classes else None
+        b = ctx.bound_args(inst, cb) if meth is not None else None
+        if meth is not None and b and meth.params:
+          mm = meth
+          slf = meth.params[0]
+          env = {f'{slf}.{k}' for k, v in b.items() if _is(v, path_param)}
+          ok = bool(env) and any(_is(v, cb.params[:1]) for v in b.values()) and (
+              len(meth.params) == 1)
   if mm is None:
     mm = ctx.func(mm_q)
+    env = set(mm.params[:1])
   mm_q = mm.qualname
   rs.check(ok, rule, f'{cb_q}:make_message',
            '_make_message is bound to this call\'s current_path and buildable',
@@ -614,12 +649,28 @@ def _message_path(ctx: Ctx, rs: RuleSet):
   rs.check(ok, rule, f'{cb_q}:wrap',
            '__build__ is invoked inside try_with_lazy_message',
            ctx.loc(cb, cb.node))
-  # _make_message formats the path parameter with path_str
-  ok = False
-  for c in ctx.calls(mm):
-    if p.resolve(c.func, mm) == 'fiddle._src.daglish.path_str' and c.args and (
-        isinstance(c.args[0], ast.Name) and c.args[0].id == mm.params[0]):
-      ok = True
+  # the message formats that path with path_str - itself, or in a function it
+  # hands the path to
+  def _path_flows(fn, names, depth=0):
+    for c in ctx.calls(fn):
+      if p.resolve(c.func, fn) == 'fiddle._src.daglish.path_str' and c.args and (
+          unparse(roles.deref(fn, c.args[0])) in names or
+          unparse(c.args[0]) in names):
+        return True
+    if depth >= 2:
+      return False
+    for c in ctx.calls(fn):
+      h = p.funcs.get(p.resolve(c.func, fn) or '')
+      if h is None or h.is_lambda or h is fn:
+        continue
+      b = ctx.bound_args(c, fn) or {}
+      sub = {k for k, v in b.items() if unparse(v) in names or unparse(
+          roles.deref(fn, v)) in names}
+      if sub and _path_flows(h, sub, depth + 1):
+        return True
+    return False
+
+  ok = bool(env) and _path_flows(mm, env)
   rs.check(ok, rule, f'{mm_q}:path_str',
            'message is built from path_str(current_path)', ctx.loc(mm, mm.node))
 
